@@ -322,14 +322,6 @@ theorem C06_closure_readback_nodict (o : Options) (ext : Ext) (h0 : o.overwrites
 
 /-! ### the closure, composed -/
 
-/-- the number of samples is at most the sum of their sizes -/
-theorem length_le_vsize_sum (ext : Ext) : ∀ (xs : List SVal), xs.length ≤ (xs.map (vsize ext)).sum
-  | [] => by simp
-  | x :: r => by
-    have := length_le_vsize_sum ext r
-    have := vsize_pos ext x
-    simp only [List.length_cons, List.map_cons, List.sum_cons]; omega
-
 /-- **`C06_closure`** — a schema traced from samples accepts those same samples, end to end, for EVERY tracing option
 (dictionary-encoded strings — `string_dictionary_encoding`, `enums_without_data_as_strings` — included).  Whenever `from_samples`
 succeeds on the collection `xs`, then
